@@ -90,6 +90,8 @@ int cmd_ieee (int argc, char **argv) ;
 
 /* fsize.c (C16: RLIMIT_FSIZE, so that writes to real files fail at a chosen moment) */
 void op_fsize (char **tok, int ntok) ;
+/* shortio.c (C07 / C14: read () / write () interposed -- short transfers and EINTR on real descriptors) */
+void op_shortio (char **tok, int ntok) ;
 
 void iolog_account (int *blocks, long *bytes) ;
 
